@@ -40,6 +40,7 @@ fn multi_file_layout(n: usize, rng: &mut Rng) -> Layout {
         files,
         xor_key: if rng.chance(1, 4) { Some(Bytes(rng.bytes(8))) } else { None },
         magic_mode: 0,
+        xor_symlink: false,
         extra_files: vec![],
     }
 }
@@ -309,7 +310,7 @@ impl Prop for C10 {
         }
         // (1c) a range that starts above the tip: nothing to process is not a failure, and the exit status
         // still has to tell the truth about the files
-        for (k, with_end) in [(1u64, false), (2, true), (1000, false)] {
+        for (k, with_end) in [(1u64, false), (2, true), (1000, false), (u64::MAX - t, false), ((1u64 << 63) - t, true)] {
             if mine() {
                 h.check(&mut mk("empty-range", &|r| {
                     r.start = Some(t + k);
